@@ -212,6 +212,8 @@ func renderBytesOrErr(b []byte, err error) string {
 }
 
 func runRImpl(c RCaseR) (o rObs) {
+	guardEnter(c)
+	defer guardLeave()
 	defer func() {
 		if r := recover(); r != nil {
 			o.Panic = fmt.Sprint(r)
